@@ -1,6 +1,6 @@
 From Coq Require Import List Arith NArith ZArith Bool String.
 From SH Require Import base.Pool gen.Extracted_channel channel.Defs channel.Word channel.Model channel.Skeleton
-  channel.Inv channel.Account channel.Reach channel.ModelRA channel.InvRA props.C07.
+  channel.Inv channel.Account channel.Reach channel.ModelRA channel.InvRA channel.Refine props.C07.
 Import ListNotations.
 Local Open Scope N_scope.
 Check C07_race_free :
@@ -8,6 +8,9 @@ Check C07_race_free :
   nth_error (snd (rrun rinit_world ls)) k = Some f -> rpcf f <> RRace why.
 Check C07_ra_invariant :
   forall ls, RInv (fst (rrun rinit_world ls)) (snd (rrun rinit_world ls)).
+Check C07_sc_worlds_are_view_worlds :
+  forall ls w es,
+  run init_world ls = (w, es) -> exists rls, world_rel w (rrun rinit_world rls).
 Check C07_orderings :
   has_acq deq_ord_cas_ok = true /\ has_rel enq_ord_cas_ok = true /\
   (forall k, has_acq (slot_ord k) = true) /\ has_rel slot_init_swap_ord = true /\
@@ -34,6 +37,7 @@ Check C07_drop_once_quiescent :
   forall x, cnt (is_send x) fs = (occn x (channel_contents s) + cnt (took x) fs + occn x (dropped s))%nat.
 Print Assumptions C07_race_free.
 Print Assumptions C07_ra_invariant.
+Print Assumptions C07_sc_worlds_are_view_worlds.
 Print Assumptions C07_orderings.
 Print Assumptions C07_drop_once.
 Print Assumptions C07_drop_once_quiescent.
